@@ -1784,7 +1784,9 @@ def translate_lifecycle(src_root, known):
     for fname, cls, func, coqname in (("sync_interpreter.py", "SyncInterpreter", "send", "send_drops_sync"),
                                       ("interpreter.py", "Interpreter", "send", "send_drops_async"),
                                       ("sync_interpreter.py", "SyncInterpreter", "stop", "stop_returns_sync"),
-                                      ("interpreter.py", "Interpreter", "stop", "stop_returns_async")):
+                                      ("interpreter.py", "Interpreter", "stop", "stop_returns_async"),
+                                      ("base_interpreter.py", "BaseInterpreter", "_fail", "fail_ignored"),
+                                      ("base_interpreter.py", "BaseInterpreter", "_complete", "complete_ignored")):
         text = open(os.path.join(src_root, fname), encoding="utf-8").read()
         module = ast.parse(text)
         cands = []
